@@ -225,8 +225,9 @@ def clause_eq_length(facts, rep, files=('sonic/dom/', 'internal/arch/simd_skip.h
         if not any(x in f.file for x in files) or (f.short == 'operator()' and 'Less' in (f.cls_qn or '')):
             continue
         sites = []
-        for bid, i, s_, e in f.walk():
-            if e.get('k') == 'call' and e.get('cname') in CMP and len(e.get('args', [])) == 3:
+        from ..core import tightest
+        for bid, i, s_, e in tightest(f, lambda e: e.get('k') == 'call' and e.get('cname') in CMP and len(e.get('args', [])) == 3):
+            if True:
                 views = []
                 for a in e['args'][:2]:
                     a_ = strip(a)
